@@ -162,6 +162,7 @@ FUNC_SYNONYM = {
     "numpy.around": "round", "numpy.round_": "round",
     "numpy.log": "log", "math.log": "log", "numpy.exp": "exp", "math.exp": "exp", "len": "len",
     "numpy.multiply": "*", "numpy.divide": "/", "numpy.true_divide": "/", "numpy.subtract": "-", "numpy.add": "+",
+    "numpy.mod": "mod", "numpy.remainder": "mod", "numpy.floor_divide": "floordiv", "numpy.matmul": "matmul",
     "numpy.negative": "neg", "float": "id", "int": "int", "numpy.float64": "id", "numpy.asarray": "id", "numpy.copy": "id", "copy.copy": "id", "copy.deepcopy": "id",
     "typing.cast": "cast", "cast": "cast", "numpy.square": "sq",
     "numpy.sqrt": "sqrt", "math.sqrt": "sqrt", "numpy.power": "pow", "pow": "pow", "math.pow": "pow",
